@@ -4,14 +4,49 @@ from props_common import STD_ASSUME
 CFG = {
     "pkg": "banyand/internal/verif/props/c13",
     "level": "exploration",
-    "level_text": "TBD",
-    "level_note": "TBD",
+    "level_text": ("seeded exploration on a real standalone trace node (liaison front end, trace engine with introducer/flusher/merger/finalize scanner, ordered secondary indexes, query processor, both the "
+                   "vectorized and the row-at-a-time query path) in a fake-clock bubble: 3-20 traces x 1-8 spans with unique span payloads and a unique int tag, arriving shuffled over several write batches at "
+                   "timestamps spread over 1-4 day segments, clock steps in between so that the real flusher, mergers and the finalize scanner run. Scenario 'no-sampler': after every step tape-chosen trace ids "
+                   "are queried (trace_id = X, trace_id IN (...)) and must return exactly the acknowledged spans (multiset of write ids, payload bytes and span ids identical); ordered queries over the TYPE_TREE "
+                   "rules must return every matching trace with all its spans; a raw scan of every ordered index (sidx.ScanRaw) must hold exactly one row per acknowledged span. Scenario 'sampler': 1-2 in-process "
+                   "sdk.Sampler values registered through the engine's own registerSampler, verdict per trace id from the tape (keep / drop / error / wrong-length mask / panic / deadline overrun, the faults 1-2 "
+                   "times before the verdict), merge and finalize events, tape-sized global semaphores; oracle: the spans a query no longer returns must be exactly the inputs of merges whose sampler gave a "
+                   "well-formed, in-time 'drop' for that trace (the sampler projects span ids, so the merge inputs are observed), and such a merge may only have been honoured if every span acknowledged "
+                   "before that Decide call started was among its inputs (otherwise a fragment lived outside); index rows must equal the stored spans; ordered queries must agree with queries by id. "
+                   "Scenario 'schedules': the same, with merge goroutines held at five gate sites of merger.go (tools/gaterw) and released in tape-chosen order with writes in between"),
+    "level_note": ("samplers ARE driven in process: accessor VerifRegisterSampler calls the unexported registerSampler (the registry reconcilePipeline fills after loading a plugin .so; the .so loader itself is "
+                   "not exercised), VerifSetMergeGrace / VerifEnableFinalize call the registry setters. Trusted: registry stub, span model, the ledger that records what each Decide call saw, the directory-listing "
+                   "observation of flush/merge. Which parts merge is decided by the engine's policy; merge inputs are observed, not chosen. 'schedules' is only partially gated: the release order of held "
+                   "goroutines is tape-driven, every goroutine that is not held is scheduled by the Go runtime, so its canonical history records the tape-level choices and a violation counts only after "
+                   "fresh-process replays. Spans acknowledged after a Decide call started are treated as late arrivals (they may survive a drop alone), as the design document accepts. The two process-global "
+                   "semaphores of banyand/trace are re-created inside the bubble by simnode.Boot (a channel made outside the bubble freezes the fake clock while contended)"),
     "budget": {"quick": 60, "thorough": 1200},
-    "rule": "TBD",
-    "expected_probes": [],
-    "real_vs_stub": {"real": [], "stub": []},
+    "rule": ("each seed draws the schema (identity tags in either order, optional TYPE_TREE rule on dur with optional svc prefix, optional rule on the timestamp, 0-3 extra tags of storable types), shards 1-3, "
+             "flush timeout, merge fan-in, query path, arrival history (shuffle, batch cuts, rarely ~700 KiB spans so that a trace exceeds one block), and per step clock advances of 0.5 s .. 45 min; 'sampler' "
+             "additionally merge_grace 1 min/10 min/1 h (span timestamps of one trace stay within it, the engine's documented contract), decide timeout, circuit-break count, semaphore sizes 1-4, finalize on/off, "
+             "sampler projection (span ids / metadata only / span ids+bodies+tag) and the verdict plan; 'schedules' additionally the armed gate sites and the release choices. Non-trivial = a flush or merge was "
+             "seen on disk (no-sampler), a sampler was called (sampler), a merge happened under gates (schedules); distinct = canonical event-log digests"),
+    "expected_probes": ["reach.flush_created_part", "reach.merge_happened", "reach.trace_spans_multiple_parts", "reach.trace_spans_multiple_segments", "reach.ordered_query_checked",
+                        "reach.sidx_entries_checked", "reach.sampler_called", "reach.sampler_answered_drop", "reach.trace_dropped_whole", "reach.trace_dropped_then_late_spans_kept",
+                        "fault.sampler_error", "fault.sampler_panic", "fault.sampler_wrong_length", "fault.sampler_timeout", "reach.sampler_link_ran_after_deadline",
+                        "reach.held_goroutine_released", "reach.released_out_of_usual_order", "reach.write_while_merge_goroutine_held"],
+    "det_n": 48,
     "gates": [
         {"files": ["banyand/trace/merger.go", "banyand/trace/tstable.go", "pkg/run/goroutine.go"], "mode": "A"},
     ],
-    "assumptions": STD_ASSUME,
+    "real_vs_stub": {
+        "real": ["banyand/trace: write path, memory parts, introducer, flusher (incl. memory-part merge), merge dispatcher and lanes, in-merge sampler hook (staging, chain execution with deadline/circuit breaker, "
+                 "fragment guard, drop set, re-validation, lossless retry), finalize scanner and rounds, query (vectorized and row-at-a-time)", "banyand/internal/sidx (ordered secondary index) incl. keep-predicate merges",
+                 "banyand/internal/storage (segments, series index)", "pkg/pipeline/sdk chain evaluation", "liaison trace front end (validation, trace-id sharding)", "banyand/query + pkg/query/logical/trace"],
+        "stub": ["metadata registry (simmeta)", "gRPC transport", "clock (testing/synctest)", "samplers are Go values registered in process instead of plugin .so files (pipeline_loader.go / sdk.OpenSampler not exercised)",
+                 "TracePipelineConfig reconciliation from the group resource (reconcilePipeline) not exercised"],
+    },
+    "assumptions": STD_ASSUME + [
+        "under samplers the timestamps of one trace's spans lie within merge_grace of each other (docs/design/post-trace-pipeline.md 7.1: 'the engine assumes fragments of one trace do not arrive farther apart than this grace'); "
+        "wider traces can be dropped fragment-wise by design and are not generated",
+        "a span acknowledged after a sampler's Decide call started counts as a late arrival: it may be the only survivor of its trace",
+        "two spans of one trace with equal key are two index rows; index rows are compared only when no memory part exists (sidx.ScanRaw refuses memory parts)",
+        "ordered queries are asked without condition or with a range on the unique tag wid; a range on the order-by key itself returns nothing on this tree (query planning, outside C13; "
+        "VERIF_C13_KEYRANGE=1 + replays/C13-side-finding-keyrange.json shows it)",
+    ],
 }
